@@ -750,6 +750,19 @@ def layer2_refine(rep, tmp):
             add(f'x {s} {lit}', f'vclass linkT {op} {tok}', f'vclass linkF {op} {tok}')
             add(f'{lit} {s} x', f'vclass linkT {op} {tok}', f'vclass linkF {op} {tok}')
             add(f'not (x {s} {lit})', f'vclass linkF {op} {tok}', f'vclass linkT {op} {tok}')
+    # the `Sum()` rule, under every sweep context: the real analysis' answer for `sum(xs)` vs the model's rule
+    sum_src = 'import fpy2 as fp\n\n' + ''.join(f'@fp.fpy\ndef sm{ci}(xs: list[fp.Real]):\n    with {cs}:\n        r = sum(xs)\n    return r\n\n' for ci, cs in enumerate(SWEEP_CTXS))
+    spath = os.path.join(tmp, 'sumrule.py')
+    with open(spath, 'w') as fh: fh.write(sum_src)
+    smod = load_module(spath, 'fpyverif_c13_sumrule')
+    model_sum = run_driver(['vclass sum 15 none'])[0]
+    for ci, cs in enumerate(SWEEP_CTXS):
+        fn = getattr(smod, f'sm{ci}')
+        vc = ValueClassInfer.analyze(fn.ast)
+        e = fn.ast.body.stmts[0].body.stmts[0].expr
+        rep.distinct.add(('sumrule', cs)); rep.count('sum-rule')
+        if str(vc.by_expr[e].value) != model_sum:
+            rep.broke('correspondence', 'C13.sum-rule', f'sum(xs) under {cs}: real={vc.by_expr[e]} model={model_sum}')
     path = os.path.join(tmp, 'refine.py')
     with open(path, 'w') as fh: fh.write('import fpy2 as fp\n\n' + '\n'.join(p[1] for p in progs))
     mod = load_module(path, 'fpyverif_c13_refine')
@@ -948,7 +961,8 @@ def run(rep, tier, seed):
         for fn in corp.ALL:
             try: src = fn.ast.format()
             except Exception: src = fn.ast.name
-            trace_function(rep, R, fn, src, 'corpus:' + fn.ast.name, 10 if quick else 40, alias_check=fn.ast.name not in corp.NO_ALIAS_CHECK)
+            inputs = list(getattr(corp, 'FIXED', {}).get(fn.ast.name, [])) + gen_args(R, fn, 10 if quick else 40)
+            trace_function(rep, R, fn, src, 'corpus:' + fn.ast.name, 0, inputs=inputs, alias_check=fn.ast.name not in corp.NO_ALIAS_CHECK)
         # ---- layer 3: generated list-sharing programs
         AG = AliasGen(R)
         for i in range(45 if quick else 800):
@@ -979,7 +993,7 @@ def run(rep, tier, seed):
         shutil.rmtree(tmp, ignore_errors=True)
     rep.cov['facts_checked'] = {k[6:]: v for k, v in rep.hist.items() if k.startswith('facts:')}
     rep.cov['rule'] = ('layer 2: ALL 16x16 class-set pairs of _exact_add/_exact_mul/join/meet, all 16 sets through the _LOGB/_POW_POS_BASE tables, random Min/Max joins, '
-                       'representable_classes + _rounded on random small contexts of every family (with nan_value/inf_value substitutes), every refinement rule '
+                       'representable_classes + _rounded on random small contexts of every family (with nan_value/inf_value substitutes), the Sum rule under every sweep context, every refinement rule '
                        '(4 class tests x truth, 6 comparison operators x literal kind x side x negation) read off the real analysis on one-branch programs, '
                        'random union-find op sequences (<= 200 ops, <= 30 elements: add/find/get/union/component/items/representatives/len/contains) vs the Lean model; '
                        'layer 3: hand-written templates for each sharing route + value-class ladders + static sizes + foldable constants, a generator of list-sharing programs '
